@@ -97,7 +97,8 @@ def judgeNs (scn : SysCommon.Scn) (out : StepOut) : Option String := Id.run do
   return none
 
 /-- C15 for a pass of the ObjectSetPhase controller on phase object `name`. -/
-def judgePhaseStep (scn : SysCommon.Scn) (cfg : Cfg) (name : String) (pre : Sys) (out : StepOut) : Option String := Id.run do
+def judgePhaseStep (scn : SysCommon.Scn) (cfg : Cfg) (st : JStep) (pre : Sys) (out : StepOut) : Option String := Id.run do
+  let name := st.set
   let some p := pre.w.phases name | return none
   let ow := Pko.Model.Remote.phaseOwner p (setKindOf scn) (nsOf scn)
   let keys := p.objs.map fun o => keyStr (keyOf cfg ow o)
@@ -108,7 +109,9 @@ def judgePhaseStep (scn : SysCommon.Scn) (cfg : Cfg) (name : String) (pre : Sys)
   match judgeNs scn out with
   | some b => return some b
   | none => pure ()
-  for se in out.phaseEvents do
+  -- (a deleting phase re-writes its last recorded conditions unchanged: not a claim about this pass)
+  -- (third-party operations inside the step: only the trace diff judges it)
+  for se in (if p.deleting || !quiet st then [] else out.phaseEvents) do
     if sOk se && hasCond (sConds se) "Available" "True" then
       for o in p.objs do
         match pre.w.store.get (keyOf cfg ow o) with
@@ -311,7 +314,7 @@ def monitor (which : Which) (s : SysCommon.Scn) (out : String) : String := Id.ru
       match parseStep tok with
       | none => return s!"bad unparsable-step {i} {tok.take 40}"
       | some so =>
-        let r := if which == .c11 then judgeNs s so else judgePhaseStep s (phaseCfgOf s) st.set sys so
+        let r := if which == .c11 then judgeNs s so else judgePhaseStep s (phaseCfgOf s) st sys so
         match r with
         | some b => return s!"{b} step={i}"
         | none => pure ()
